@@ -18,7 +18,9 @@ if '--import' in sys.argv:
         if os.path.exists(d + '/README.md'):
             shutil.copy(d + '/README.md', dst + '/README.md')
 only = [a for a in sys.argv[1:] if a.startswith('C')]
-subprocess.run([V + '/setup.sh'], check=True, env=env)
+BIN = os.environ.get('CECHECK_BIN', V + '/bin/cecheck')
+if 'CECHECK_BIN' not in os.environ:
+    subprocess.run([V + '/setup.sh'], check=True, env=env)
 checks = [c['property_id'] for c in json.load(open(V + '/MANIFEST.json'))['checks']]
 refs = sorted(glob.glob(V + '/refactors/*/patch.diff'))
 if only:
@@ -38,7 +40,7 @@ def run(ref):
         os.makedirs(tmp + '/.v')
         shutil.copy(V + '/known_findings.json', tmp + '/.v/known_findings.json')
         alarms = []
-        o = subprocess.run([V + '/bin/cecheck', 'ALL', '--repo', tmp, '--verif', tmp + '/.v'], capture_output=True, text=True, env=env)
+        o = subprocess.run([BIN, 'ALL', '--repo', tmp, '--verif', tmp + '/.v'], capture_output=True, text=True, env=env)
         if o.returncode != 0:
             import re
             for l in o.stdout.splitlines():
